@@ -15,13 +15,13 @@ def gen_block(rng, name, natoms=None, nrexcl=None):
     natoms = natoms or rng.randint(1, 4)
     atoms = []
     for i in range(natoms):
-        atoms.append({'name': f'{"ABCD"[i]}{name[-1]}' if rng.random() < 0.5 else f'{"BSTU"[i]}B',
+        atoms.append({'name': f'{"ABCDEF"[i]}{name[-1]}' if rng.random() < 0.5 else f'{"BSTUVW"[i]}B',
                       'atype': rng.choice(ATYPES), 'cg': rng.choice([i + 1, 1]),
                       'charge': rng.choice(['0.0', '0.5', '-0.5', '1.0']), 'mass': rng.choice(['72.0', '36.0', '45.5'])})
     names = [a['name'] for a in atoms]
     if len(set(names)) != len(names):
         for i, a in enumerate(atoms):
-            a['name'] = f'{"ABCD"[i]}{name[-1]}'
+            a['name'] = f'{"ABCDEF"[i]}{name[-1]}'
     inters = {}
     for sec, ar in SECTION_ARITY.items():
         if natoms >= ar and rng.random() < (0.7 if sec == 'bonds' else 0.3):
@@ -120,6 +120,21 @@ def gen_link(rng, blocks):
     return link
 
 
+LINKTYPES = ['a16', 'circle']
+
+
+def label_link(rng, link):
+    """give the link a 'linktype' label: an [ edges ] line with the attribute on the atoms of one of its
+    inter-residue two-body interactions (the edge made by the bond and the labelled edge are one edge)"""
+    cands = [r['atoms'] for sec in ('bonds', 'constraints') for r in link['inters'].get(sec, []) if r['atoms'][0][0] != r['atoms'][1][0]]
+    if not cands:
+        return link
+    a, b = rng.choice(cands)
+    link = dict(link, edges=[e for e in link['edges'] if {tuple(e[0]), tuple(e[1])} != {tuple(a), tuple(b)}],
+                edge_labels=[[list(a), list(b), rng.choice(LINKTYPES)]])
+    return link
+
+
 def gen_ff(rng, nblocks=None, nlinks=None, uniform_nrexcl=None):
     nblocks = nblocks or rng.randint(1, 3)
     blocks = [gen_block(rng, f'R{"ABC"[i]}', nrexcl=uniform_nrexcl) for i in range(nblocks)]
@@ -156,10 +171,12 @@ def render_ff(ff):
             out.append(f'[ {sec} ]')
             for r in rows:
                 out.append(' '.join(p + n for p, n in r['atoms']) + ' ' + ' '.join(r['params']) + fmt_meta(r['meta']))
-        if l['edges']:
+        if l['edges'] or l.get('edge_labels'):
             out.append('[ edges ]')
             for a, b in l['edges']:
                 out.append(f'{a[0]}{a[1]} {b[0]}{b[1]}')
+            for a, b, lab in l.get('edge_labels', []):
+                out.append(f'{a[0]}{a[1]} {b[0]}{b[1]} ' + json.dumps({'linktype': lab}))
         out.append('')
     # links that address atoms of the finished molecule by (1-based) atom id
     for l in ff.get('explicit_links', []):
@@ -188,6 +205,11 @@ def gen_resgraph(rng, ff, nres=None, shape=None):
             'keys': list(range(nres)), 'order': list(range(nres)), 'edge_order': list(range(len(edges))), 'flip': [False] * len(edges)}
 
 
+def label_graph(rng, g, p=0.5):
+    """residue-graph edges with a 'linktype' label (as a .json sequence or a circular .ig file gives them)"""
+    return dict(g, elabels={str(k): rng.choice(LINKTYPES) for k in range(len(g['edges'])) if rng.random() < p})
+
+
 def permute_graph(rng, g):
     """same residue graph (resids fixed) with other node keys, insertion order, edge order, edge orientation"""
     n = g['nres']
@@ -209,7 +231,11 @@ def build_meta(g, force_field):
         a, b = g['edges'][k]
         if g['flip'][k]:
             a, b = b, a
-        graph.add_edge(g['keys'][a], g['keys'][b])
+        lab = g.get('elabels', {}).get(str(k))
+        if lab is None:
+            graph.add_edge(g['keys'][a], g['keys'][b])
+        else:
+            graph.add_edge(g['keys'][a], g['keys'][b], linktype=lab)
     return MetaMolecule(graph, force_field=force_field, mol_name='mol')
 
 
